@@ -1,6 +1,7 @@
 import XV.Lemmas.LedgerInvSwitch
 import XV.Lemmas.LedgerInvUndo
 import XV.Lemmas.LedgerInvTruncInv
+import XV.Lemmas.LedgerInvHist
 /-!
 Ledger main-chain invariant, part 10: user-facing forms (hypotheses and conclusions phrased with the model's own
 `pathOf`, which is computable, instead of the ancestor relation).
